@@ -1460,6 +1460,9 @@ func (sc *serverConn) closeStream(st *stream, err error) {
 	delete(sc.streams, st.id)
 	if p := st.body; p != nil {
 		p.CloseWithError(err)
+		// Return the conn-level flow control of buffered data which will
+		// never be read by the handler. See golang.org/issue/16481
+		sc.sendWindowUpdate(nil, p.Discard())
 		if st.defaultStreamWindow() {
 			p.Release(&fixBufferPool)
 		}
@@ -1616,12 +1619,25 @@ func (sc *serverConn) processData(f *DataFrame) error {
 
 	// Sender sending more than they'd declared?
 	if st.declBodyBytes != -1 && st.bodyBytes+int64(len(data)) > st.declBodyBytes {
+		// Still enforce the connection-level flow control.
+		if sc.inflow.available() < int32(f.Length) {
+			errMsg := "connection-level flow control window error"
+			return StreamError{id, ErrCodeFlowControl, errMsg}
+		}
+
 		err := fmt.Errorf("sender tried to send more than declared Content-Length of %d bytes", st.declBodyBytes)
 		st.body.CloseWithError(err)
 		// RFC 7540, sec 8.1.2.6: A request or response is also malformed if the
 		// value of a content-length header field does not equal the sum of the
 		// DATA frame payload lengths that form the body.
-		return StreamError{id, ErrCodeProtocol, err.Error()}
+		sc.resetStream(StreamError{id, ErrCodeProtocol, err.Error()})
+
+		// The frame counts against the connection-level window of the
+		// sender; return the flow control immediately since the data
+		// is discarded.
+		sc.inflow.take(int32(f.Length))
+		sc.sendWindowUpdate(nil, int(f.Length))
+		return nil
 	}
 	if f.Length > 0 {
 		// Check whether the client has flow control quota.
@@ -1634,6 +1650,8 @@ func (sc *serverConn) processData(f *DataFrame) error {
 		if len(data) > 0 {
 			wrote, err := st.body.Write(data)
 			if err != nil {
+				// Return the conn-level flow control of discarded data.
+				sc.sendWindowUpdate(nil, int(f.Length)-wrote)
 				errMsg := fmt.Sprintf("stream body write error: %s", err)
 				return StreamError{id, ErrCodeStreamClosed, errMsg}
 			}
